@@ -14,7 +14,7 @@ ID = "C13"
 LEVEL = "exploration"
 RULE = ("Hypothesis-generated histories (<=15 ops) over a fresh hierarchy A<-B<-C, B2(A), diamond D(B,B2) with generated declarations: "
         "namespace reads (list/param[n]/values()/repr/objects, which populate caches), class-level sets at every level, "
-        "rejected class-level sets, class-level assignment of Parameter objects, add_parameter at every level (new or existing names, via class or instance namespace), instance creation and "
+        "rejected class-level sets, class-level assignment of Parameter objects, class-level update() contexts and triggers, one private (underscore) parameter name, add_parameter at every level (new or existing names, via class or instance namespace), instance creation and "
         "instance sets; invariant after every op: static MRO lookup == .param view (names, identity, default, "
         "values(), repr, watch, serialization). Non-trivial = a namespace of K was read before a later op changed K or an "
         "ancestor of K at class level; distinct = distinct case hash.")
@@ -24,7 +24,7 @@ ASSUMPTIONS = [
 ]
 SIZES = {"quick": 2000, "thorough": 10000}
 
-NAMES = ["x", "y", "w", "v", "z0", "z1"]
+NAMES = ["x", "_y", "w", "v", "z0", "z1"]        # one private name (leading underscore): a Parameter like any other
 CLS = ["A", "B", "C", "B2", "D"]
 
 
@@ -59,6 +59,10 @@ def _ops():
         st.tuples(st.just("cls_set"), _cls, _name, _small),
         st.tuples(st.just("cls_set_bad"), _cls, _name3),
         st.tuples(st.just("cls_assign_param"), _cls, _name, _kind, _small),
+        # `with Cls.param.update(...)` on a class (optionally reading namespaces / creating an instance inside the block)
+        st.tuples(st.just("cls_updctx"), _cls, _name, _small, st.sampled_from(["none", "read", "new"])),
+        # class-level trigger with a class-level watcher whose callback reads the namespaces
+        st.tuples(st.just("cls_trigger"), _cls, _name),
         st.tuples(st.just("add"), _cls, _name, _kind, _small, st.booleans()),
         st.tuples(st.just("add"), _cls, _name, _kind, _small, st.booleans()),
         st.tuples(st.just("new"), _cls),
@@ -244,6 +248,43 @@ def execute(case):
                 res.label("rejected_class_level_set" + ("_on_inherited" if n not in vars(K) or stat[n] is not vars(K).get(n) else ""))
             else:
                 res.dontcare += 1
+        elif name == "cls_updctx":
+            K = classes[op[1]]
+            stat = _static(K)
+            n = NAMES[op[2]]
+            if n not in stat:
+                continue
+            if any(k in read_classes for k in classes if k is K or K in parents[k]):
+                nontrivial = True
+                res.label("read_before_class_change")
+            with K.param.update(**{n: _val(kind_of(stat[n]), op[3])}):
+                if op[4] == "read":
+                    for k in classes:
+                        list(k.param)
+                        k.param.values()
+                elif op[4] == "new":
+                    insts.append(K())
+                invariant(tag + " (inside the block)")
+            res.label("class_level_update_context")
+        elif name == "cls_trigger":
+            K = classes[op[1]]
+            stat = _static(K)
+            n = NAMES[op[2]]
+            if n not in stat:
+                continue
+
+            def peek(*events):
+                for e in events:
+                    for k in classes:
+                        if k is e.cls or e.cls in parents[k]:
+                            list(k.param)
+                            k.param.values()
+            h = K.param.watch(peek, n, onlychanged=False)
+            try:
+                K.param.trigger(n)
+            finally:
+                K.param.unwatch(h)
+            res.label("class_level_trigger")
         elif name == "cls_assign_param":
             # a class-level assignment whose value is a Parameter object (the metaclass documents it as (re)declaring it)
             K = classes[op[1]]
